@@ -134,6 +134,31 @@ def main():
                     if not np.array_equal(getattr(recs[w], comp).amplitude, series(pats[case["pat"][w][ci_] - 1])):
                         run.violation("td:input-mutated", "rejection modified the samples of a window", dict(kind="td", case=case))
 
+    # ---- windows of different durations in one call (PerWindow: the decision on a window depends on that window only) ----
+    #      a long window = two patterns back to back; every window's joint verdict must equal its verdict alone
+    mixed = 0
+    for n_, ci in enumerate(order[:400 if quick else 4000]):
+        case = cases[ci]
+        comps = tuple(case["comps"])
+        lo, hi = case["lim"][0][0] / case["lim"][0][1], case["lim"][1][0] / case["lim"][1][1]
+        short = [record(w, case["pat"][w]) for w in range(nwin)]
+        tsl = [h.TimeSeries(np.concatenate([series(pats[case["pat"][0][c] - 1]), series(pats[case["pat"][nwin - 1][c] - 1])]), DT) for c in range(3)]
+        long_rec = h.SeismicRecording3C(tsl[0], tsl[1], tsl[2])
+        for lst in (short + [long_rec], [long_rec] + short, short[:1] + [long_rec] + short[1:]):
+            try:
+                joint = h.sta_lta_window_rejection(lst, sta_seconds=STA, lta_seconds=LTA, min_sta_lta_ratio=lo, max_sta_lta_ratio=hi, components=comps)
+            except Exception as e:
+                run.violation("sta_lta_window_rejection:mixed-durations:raised", f"windows of {[r.ns.n_samples for r in lst]} samples in one call raised "
+                              f"{type(e).__name__}: {e}", dict(kind="td-mixed", case=case))
+                continue
+            kept_joint = [any(g is r for g in joint) for r in lst]
+            kept_alone = [len(h.sta_lta_window_rejection([r], sta_seconds=STA, lta_seconds=LTA, min_sta_lta_ratio=lo, max_sta_lta_ratio=hi, components=comps)) == 1 for r in lst]
+            if kept_joint != kept_alone:
+                run.violation("sta_lta_window_rejection:mixed-durations", f"windows of {[r.ns.n_samples for r in lst]} samples judged together: kept {kept_joint}, "
+                              f"each judged alone: {kept_alone}; comps={case['comps']} lim={case['lim']}", dict(kind="td-mixed", case=case))
+            mixed += 1
+    run.notes["mixed_duration_lists"] = mixed
+
     # ---- histories: the TdReject action of the HvsrObject state machine on real objects ----------
     for na, rng_, k in ((1, "Ranges6", 40 if quick else 8), (2, "Ranges6s", 15000 if quick else 3000)):
         ex = hvsrobj.cfg_text(na, 3, 6, "Alpha6a", rng_, "NSetA", "MaxItsA", "InitEnv", export=True, props=["TdStep"])
